@@ -37,6 +37,8 @@ pub use v2::OutputPort;
 
 #[cfg(all(feature = "verif", feature = "output-port-v2"))]
 pub use v2::verif_hooks;
+#[cfg(all(feature = "verif", feature = "output-port-v2"))]
+pub use v2::verif_hooks2;
 
 #[cfg(not(feature = "output-port-v2"))]
 mod v1 {
@@ -254,6 +256,8 @@ mod v2 {
 
     #[cfg(feature = "verif")]
     pub use inner::verif_hooks;
+    #[cfg(feature = "verif")]
+    pub use inner::verif_hooks2;
 
     mod inner {
 
@@ -626,6 +630,102 @@ mod v2 {
                 let trace_out = trace.lock().unwrap().clone();
                 // identify the remaining subscribers by sending them a probe value that
                 // every converter ignores for the purpose of the trace
+                let before = trace.lock().unwrap().len();
+                for (_, s) in subs.iter() {
+                    let _ = s.send(&0);
+                }
+                let remaining = trace.lock().unwrap()[before..].iter().map(|t| t.0).collect();
+                (trace_out, remaining)
+            }
+        }
+
+        /// Verification hooks, second generation: the private `dispatch_batch` driven with the
+        /// REAL `Filtering` subscriber (the one `OutputPort::subscribe` creates) around a fake
+        /// actor reference, so that `Filtering::send` itself is under test (feature `verif`,
+        /// add-only).
+        #[cfg(feature = "verif")]
+        #[allow(missing_docs, missing_debug_implementations, unreachable_pub)]
+        pub mod verif_hooks2 {
+            use std::sync::{Arc, Mutex};
+
+            use super::verif_hooks::{conv, Item, SubSpec, Trace};
+            use super::{
+                dispatch_batch, ActorReference, Filtering, OutportMessage, Subscriber, Subscribers,
+            };
+            use crate::ActorId;
+
+            /// stands for an `ActorRef`: refuses messages when `dead`, or — `dying = (id, n)` —
+            /// once `n` `Subscriber::send` calls have been made on the whole port
+            struct FakeRef {
+                spec: SubSpec,
+                trace: Trace,
+                dying: Option<(u32, usize)>,
+            }
+
+            impl FakeRef {
+                /// called right after the filter pushed the trace entry of the running
+                /// `Filtering::send`: decides whether the actor still accepts, records it
+                fn accepts(&self) -> bool {
+                    let mut trace = self.trace.lock().unwrap();
+                    let made_before = trace.len() - 1;
+                    let late = matches!(self.dying, Some((id, n)) if id == self.spec.id && made_before >= n);
+                    let ok = !(self.spec.dead || late);
+                    trace.last_mut().unwrap().2 = ok;
+                    ok
+                }
+            }
+
+            impl ActorReference for FakeRef {
+                type Msg = u32;
+                fn send_message(&self, _value: u32) -> bool {
+                    self.accepts()
+                }
+                fn id(&self) -> ActorId {
+                    ActorId::Local(self.spec.id as u64)
+                }
+                fn accepts_messages(&self) -> bool {
+                    self.accepts()
+                }
+            }
+
+            /// Like `verif_hooks::dispatch_dying`, but every subscriber is a real `Filtering`.
+            pub async fn dispatch_filtering(
+                subscribers: &[SubSpec],
+                batch: &[Item],
+                allow_duplicate_subscription: bool,
+                dying: Option<(u32, usize)>,
+            ) -> (Vec<(u32, u32, bool)>, Vec<u32>) {
+                let trace: Trace = Arc::new(Mutex::new(Vec::new()));
+                let mk = |spec: &SubSpec| -> Box<dyn Subscriber<ActorId, u32>> {
+                    let spec = *spec;
+                    let t = trace.clone();
+                    Box::new(Filtering {
+                        actor_ref: FakeRef {
+                            spec,
+                            trace: trace.clone(),
+                            dying,
+                        },
+                        filter: move |v: &u32| {
+                            t.lock().unwrap().push((spec.key, *v, true));
+                            conv(spec.conv, *v)
+                        },
+                    })
+                };
+                let mut subs: Subscribers<ActorId, u32> = subscribers
+                    .iter()
+                    .map(|s| (ActorId::Local(s.id as u64), mk(s)))
+                    .collect();
+                let mut batch: Vec<OutportMessage<ActorId, u32>> = batch
+                    .iter()
+                    .map(|i| match i {
+                        Item::Data(v) => OutportMessage::Data(*v),
+                        Item::Set(s) => OutportMessage::SetSubscriber(Some(mk(s))),
+                    })
+                    .collect();
+                dispatch_batch(&mut subs, &mut batch, allow_duplicate_subscription).await;
+                assert!(batch.is_empty());
+                let trace_out = trace.lock().unwrap().clone();
+                // identify the remaining subscribers by offering them a probe value
                 let before = trace.lock().unwrap().len();
                 for (_, s) in subs.iter() {
                     let _ = s.send(&0);
